@@ -309,14 +309,16 @@ Definition exc_ok (r : result) (exc : string) : bool :=
   | Err (Malformed k) => if N.eqb k 2 then String.eqb exc "UnpicklingError" else true
   | _ => true
   end.
+Definition out_of_model (r : result) : bool := match fst r with Err OutOfModel => true | _ => false end.
 Definition sx_bytes_verdict (exact with_value : bool) (exc : string) (r : result) (real : sx) : sx :=
-  if exact || oracle_free r then
+  if (exact || oracle_free r) && negb (out_of_model r) then
     if exc_ok r exc then sx_result with_value r else SL [SA "exception-mismatch"; sx_result_fine r]
   else
+    (* exact: the oracles were measured, every resolve up to the OutOfModel point is comparable *)
+    let pre := resolved_of (if exact then snd r else before_call (snd r)) in
     match real with
     | SL [c; f; SL resolved; v] =>
-        if sx_prefix (resolved_of (before_call (snd r))) resolved then real
-        else SL [SA "prefix-mismatch"; SL (resolved_of (before_call (snd r)))]
+        if sx_prefix pre resolved then real else SL [SA "prefix-mismatch"; SL pre]
     | _ => SA "bad-observation"
     end.
 (* how the comparison of a stream was made: "exact" / "oracle-free" / "prefix" (informational) *)
@@ -335,3 +337,19 @@ Fixpoint show_bytes (l : list N) : string :=
   match l with [] => "" | b :: r => show_N b ++ " " ++ show_bytes r end.
 Fixpoint show_dumps (l : list (list N)) : string :=
   match l with [] => "" | p :: r => show_bytes p ++ nl ++ show_dumps r end.
+
+(* the call / build queries of a run, in order, in a form that parses back unambiguously:
+   atoms as <length:text>, one run per line (for measuring the oracles of a mutated stream) *)
+Fixpoint show_sxq (a : sx) : string :=
+  match a with
+  | SA t => "<" ++ show_nat (String.length t) ++ ":" ++ t ++ ">"
+  | SZ z => show_Z z
+  | SL l => "(" ++ (fix go (l : list sx) : string :=
+                     match l with
+                     | [] => ""
+                     | [x] => show_sxq x
+                     | x :: r => show_sxq x ++ " " ++ go r
+                     end) l ++ ")"
+  end.
+Definition show_queries (w : world) (d : dialect) (bs : list N) : string :=
+  show_sxq (SL (calls_of (snd (load_content w d bs)))) ++ nl.
